@@ -44,62 +44,68 @@ theorem decode_encode_body (key val : Bytes) (h : key.length + val.length < 4294
     decodeBody (encodeBody key val) = .ok key val :=
   decodeBody_encodeBody key val h
 
-/-- **scan_encode**: for every list of records (any flags, keys, values, time stamps, checksums) the
+@@LIVE@@
+
+/-! ## byte level — the reader BEFORE the fix (`scanLegacy`): partial theorems and refutations -/
+
+/-- **scanLegacy_encode**: for every list of records (any flags, keys, values, time stamps, checksums) the
     start-up scan of the bytes `PutBatch`/`Put` appended returns exactly those records, in order, ends
     with EOF (never an error) and leaves `Offset` at the end of the file. -/
-theorem scan_encode (ss : List Stamped) (h : ∀ s ∈ ss, WF s.r) :
-    scan (encodeAll ss) = ⟨.eof, (encodeAll ss).length, ss.map (·.r)⟩ := by
+theorem scanLegacy_encode (ss : List Stamped) (h : ∀ s ∈ ss, WF s.r) :
+    scanLegacy (encodeAll ss) = ⟨.eof, (encodeAll ss).length, ss.map (·.r)⟩ := by
   have hl := encodeAll_length_ge ss h
-  unfold scan
-  have := scanLoop_encodeAll ss [] [] [] ((encodeAll ss).length + 1) h (by omega)
+  unfold scanLegacy
+  have := scanLoop_encodeAll ss [] [] [] ((encodeAll ss).length + 1) h
+    (fun pre post x hx => scanStepLegacy_enc pre post x.ts x.crc x.r (h x hx)) (by omega)
   simp only [List.nil_append, List.append_nil, List.length_nil, Nat.zero_add] at this
-  rw [this, scanLoop_at_end _ _ _ _ (Nat.le_refl _)]
+  rw [this, scanLoop_at_end stepOK_legacy _ _ _ _ (Nat.le_refl _)]
 
-/-- **scan_ignores_stamp**: two files that differ only in the time stamps and CRCs of their record
+/-- **scanLegacy_ignores_stamp**: two files that differ only in the time stamps and CRCs of their record
     heads replay identically — the checksum is written but never verified. -/
-theorem scan_ignores_stamp (ss ss' : List Stamped) (h : ∀ s ∈ ss, WF s.r)
+theorem scanLegacy_ignores_stamp (ss ss' : List Stamped) (h : ∀ s ∈ ss, WF s.r)
     (hsame : ss.map (·.r) = ss'.map (·.r)) :
-    (scan (encodeAll ss)).recs = (scan (encodeAll ss')).recs ∧
-      (scan (encodeAll ss)).stop = (scan (encodeAll ss')).stop := by
+    (scanLegacy (encodeAll ss)).recs = (scanLegacy (encodeAll ss')).recs ∧
+      (scanLegacy (encodeAll ss)).stop = (scanLegacy (encodeAll ss')).stop := by
   have h' : ∀ s ∈ ss', WF s.r := by
     intro s hs
     have : s.r ∈ ss'.map (·.r) := List.mem_map.2 ⟨s, hs, rfl⟩
     rw [← hsame] at this
     obtain ⟨s0, hs0, he⟩ := List.mem_map.1 this
     rw [← he]; exact h s0 hs0
-  rw [scan_encode ss h, scan_encode ss' h']
+  rw [scanLegacy_encode ss h, scanLegacy_encode ss' h']
   exact ⟨hsame, rfl⟩
 
-/-- **scan_no_fuel**: the fuel of the loop model never runs out: `scan` always ends in EOF, in an
+/-- **scanLegacy_no_fuel**: the fuel of the loop model never runs out: `scan` always ends in EOF, in an
     error, or (aligned length wrapped to 0 — impossible for `FileUtilsEncode` output) in the Go loop's
     own non-termination. -/
-theorem scan_no_fuel (file : Bytes) : (scan file).stop ≠ .fuel :=
-  scanLoop_no_fuel _ _ _ _ (by omega)
+theorem scanLegacy_no_fuel (file : Bytes) : (scan file).stop ≠ .fuel :=
+  scanLoop_no_fuel stepOK_legacy _ _ _ _ (by omega)
 
 /-- cut inside (or exactly after) the 18-byte head: the torn record is dropped, the scan ends with EOF. -/
-theorem scan_torn_head (good : List Stamped) (s : Stamped) (c : Nat)
+theorem scanLegacy_torn_head (good : List Stamped) (s : Stamped) (c : Nat)
     (hg : ∀ x ∈ good, WF x.r) (hc : c ≤ 18) :
-    scan (encodeAll good ++ (encodeRecord s.ts s.crc s.r).take c)
+    scanLegacy (encodeAll good ++ (encodeRecord s.ts s.crc s.r).take c)
       = ⟨.eof, (encodeAll good).length, good.map (·.r)⟩ := by
   have hl := encodeAll_length_ge good hg
-  unfold scan
+  unfold scanLegacy
   have hlen : ((encodeRecord s.ts s.crc s.r).take c).length ≤ 18 := by
     rw [List.length_take]; omega
   have := scanLoop_encodeAll good [] ((encodeRecord s.ts s.crc s.r).take c) []
     ((encodeAll good ++ (encodeRecord s.ts s.crc s.r).take c).length + 1) hg
+    (fun pre post x hx => scanStepLegacy_enc pre post x.ts x.crc x.r (hg x hx))
     (by simp only [List.length_append]; omega)
   simp only [List.nil_append, List.length_nil, Nat.zero_add] at this
   rw [this]
   have hf : (encodeAll good ++ (encodeRecord s.ts s.crc s.r).take c).length + 1 - good.length
       = ((encodeAll good ++ (encodeRecord s.ts s.crc s.r).take c).length - good.length) + 1 := by
     simp only [List.length_append]; omega
-  rw [hf, scanLoop_short _ _ _ _ (by simp only [List.length_append]; omega)]
+  rw [hf, scanLoop_short stepOK_legacy _ _ _ _ (by simp only [List.length_append]; omega)]
 
 /-- cut after the complete body (inside the zero padding, or at the record boundary): the record is
     complete as far as the reader is concerned and is delivered intact. -/
-theorem scan_torn_pad (good : List Stamped) (s : Stamped) (c : Nat)
+theorem scanLegacy_torn_pad (good : List Stamped) (s : Stamped) (c : Nat)
     (hg : ∀ x ∈ good, WF x.r) (hs : WF s.r) (hc : 18 + (bodyOf s.r).length ≤ c) :
-    scan (encodeAll good ++ (encodeRecord s.ts s.crc s.r).take c)
+    scanLegacy (encodeAll good ++ (encodeRecord s.ts s.crc s.r).take c)
       = ⟨.eof, (encodeAll good).length + encLen s.r, good.map (·.r) ++ [s.r]⟩ := by
   have hl := encodeAll_length_ge good hg
   have hb := encLen_bounds s.r hs
@@ -115,9 +121,10 @@ theorem scan_torn_pad (good : List Stamped) (s : Stamped) (c : Nat)
     rw [List.length_take, encodeRecord_length _ _ _ hs]; omega
   have hlen1 : 1 ≤ ((encodeRecord s.ts s.crc s.r).take c).length := by
     rw [List.length_take, encodeRecord_length _ _ _ hs]; omega
-  unfold scan
+  unfold scanLegacy
   have := scanLoop_encodeAll good [] ((encodeRecord s.ts s.crc s.r).take c) []
     ((encodeAll good ++ (encodeRecord s.ts s.crc s.r).take c).length + 1) hg
+    (fun pre post x hx => scanStepLegacy_enc pre post x.ts x.crc x.r (hg x hx))
     (by simp only [List.length_append]; omega)
   simp only [List.nil_append, List.length_nil, Nat.zero_add] at this
   rw [this]
@@ -125,33 +132,33 @@ theorem scan_torn_pad (good : List Stamped) (s : Stamped) (c : Nat)
       = ((encodeAll good ++ (encodeRecord s.ts s.crc s.r).take c).length - good.length) + 1 := by
     simp only [List.length_append]; omega
   rw [hf]
-  have hstep : scanStep (encodeAll good ++ (encodeRecord s.ts s.crc s.r).take c) (encodeAll good).length
+  have hstep : scanStepLegacy (encodeAll good ++ (encodeRecord s.ts s.crc s.r).take c) (encodeAll good).length
       = .deliver s.r (encLen s.r) := by
     rw [htail]
-    exact scanStep_headbody _ _ s.ts s.crc s.r _ hs rfl
+    exact scanStepLegacy_headbody _ _ s.ts s.crc s.r _ hs rfl
   rw [scanLoop_deliver _ _ _ _ _ _ hstep (by omega)]
-  rw [scanLoop_at_end _ _ _ _ (by simp only [List.length_append]; omega)]
+  rw [scanLoop_at_end stepOK_legacy _ _ _ _ (by simp only [List.length_append]; omega)]
 
-/-- **scan_torn_total_partial**: the property's clause "after a crash in the middle of an append the
+/-- **scanLegacy_torn_total_partial**: the property's clause "after a crash in the middle of an append the
     file opens again, with the records appended before and never a phantom record" — under the exact
     guard for which the code as written guarantees it: the cut lies inside the 18-byte head (or before
     it) or behind the last body byte. -/
-theorem scan_torn_total_partial (good : List Stamped) (s : Stamped) (c : Nat)
+theorem scanLegacy_torn_total_partial (good : List Stamped) (s : Stamped) (c : Nat)
     (hg : ∀ x ∈ good, WF x.r) (hs : WF s.r)
     (guard : c ≤ 18 ∨ 18 + (bodyOf s.r).length ≤ c) :
-    (scan (encodeAll good ++ (encodeRecord s.ts s.crc s.r).take c)).stop = .eof ∧
-      ((scan (encodeAll good ++ (encodeRecord s.ts s.crc s.r).take c)).recs = good.map (·.r) ∨
-       (scan (encodeAll good ++ (encodeRecord s.ts s.crc s.r).take c)).recs = good.map (·.r) ++ [s.r]) := by
+    (scanLegacy (encodeAll good ++ (encodeRecord s.ts s.crc s.r).take c)).stop = .eof ∧
+      ((scanLegacy (encodeAll good ++ (encodeRecord s.ts s.crc s.r).take c)).recs = good.map (·.r) ∨
+       (scanLegacy (encodeAll good ++ (encodeRecord s.ts s.crc s.r).take c)).recs = good.map (·.r) ++ [s.r]) := by
   rcases guard with h | h
-  · rw [scan_torn_head good s c hg h]; exact ⟨rfl, Or.inl rfl⟩
-  · rw [scan_torn_pad good s c hg hs h]; exact ⟨rfl, Or.inr rfl⟩
+  · rw [scanLegacy_torn_head good s c hg h]; exact ⟨rfl, Or.inl rfl⟩
+  · rw [scanLegacy_torn_pad good s c hg hs h]; exact ⟨rfl, Or.inr rfl⟩
 
-/-- **scan_torn_exact**: what the scan does for EVERY cut behind the head (`c > 18`): the reader hands
+/-- **scanLegacy_torn_exact**: what the scan does for EVERY cut behind the head (`c > 18`): the reader hands
     `tornBody` (the bytes that reached the file, then zeros) to the rlp decoder; a decode error aborts
-    the scan (=> `Start` panics); a successful decode is delivered as a record — whatever it says. -/
-theorem scan_torn_exact (good : List Stamped) (s : Stamped) (c : Nat)
+    the scanLegacy (=> `Start` panics); a successful decode is delivered as a record — whatever it says. -/
+theorem scanLegacy_torn_exact (good : List Stamped) (s : Stamped) (c : Nat)
     (hg : ∀ x ∈ good, WF x.r) (hs : WF s.r) (hc : 18 < c) :
-    scan (encodeAll good ++ (encodeRecord s.ts s.crc s.r).take c) =
+    scanLegacy (encodeAll good ++ (encodeRecord s.ts s.crc s.r).take c) =
       match decodeBody (tornBody s.r c) with
       | .eof => ⟨.eof, (encodeAll good).length, good.map (·.r)⟩
       | .err e => ⟨.err e, (encodeAll good).length, good.map (·.r)⟩
@@ -169,9 +176,10 @@ theorem scan_torn_exact (good : List Stamped) (s : Stamped) (c : Nat)
     rw [List.length_take, encodeRecord_length _ _ _ ⟨hflg, hbl⟩]; omega
   have hlen1 : 1 ≤ ((encodeRecord s.ts s.crc s.r).take c).length := by
     rw [List.length_take, encodeRecord_length _ _ _ ⟨hflg, hbl⟩]; omega
-  unfold scan
+  unfold scanLegacy
   have := scanLoop_encodeAll good [] ((encodeRecord s.ts s.crc s.r).take c) []
     ((encodeAll good ++ (encodeRecord s.ts s.crc s.r).take c).length + 1) hg
+    (fun pre post x hx => scanStepLegacy_enc pre post x.ts x.crc x.r (hg x hx))
     (by simp only [List.length_append]; omega)
   simp only [List.nil_append, List.length_nil, Nat.zero_add] at this
   rw [this]
@@ -179,12 +187,12 @@ theorem scan_torn_exact (good : List Stamped) (s : Stamped) (c : Nat)
       = ((encodeAll good ++ (encodeRecord s.ts s.crc s.r).take c).length - good.length) + 1 := by
     simp only [List.length_append]; omega
   rw [hf]
-  have hstep : scanStep (encodeAll good ++ (encodeRecord s.ts s.crc s.r).take c) (encodeAll good).length =
+  have hstep : scanStepLegacy (encodeAll good ++ (encodeRecord s.ts s.crc s.r).take c) (encodeAll good).length =
       match decodeBody (tornBody s.r c) with
       | .eof => .eof
       | .err e => .err e
       | .ok k v => .deliver ⟨s.r.flg, k, v⟩ (encLen s.r) := by
-    rw [htail, scanStep_head _ _ _ _ _ _ hflg (by omega), readAt_torn s.r _ c hc]
+    rw [htail, scanStepLegacy_head _ _ _ _ _ _ hflg (by omega), readAt_torn s.r _ c hc]
     have hu : GoSem.uadd 4294967296 18 (bodyOf s.r).length = 18 + (bodyOf s.r).length := by
       unfold GoSem.uadd; omega
     simp only [hu]
@@ -200,24 +208,24 @@ theorem scan_torn_exact (good : List Stamped) (s : Stamped) (c : Nat)
     rw [hd] at hstep
     simp only
     rw [scanLoop_deliver _ _ _ _ _ _ hstep (by omega)]
-    rw [scanLoop_at_end _ _ _ _ (by simp only [List.length_append]; omega)]
+    rw [scanLoop_at_end stepOK_legacy _ _ _ _ (by simp only [List.length_append]; omega)]
 
-/-- **scan_torn_total_iff**: the EXACT guard of the full statement. For a record cut at byte `c`, the
+/-- **scanLegacy_torn_total_iff**: the EXACT guard of the full statement. For a record cut at byte `c`, the
     scan "ends with EOF and returns the old records, possibly plus the record in flight" if and only if
     the cut lies inside the head, or the zero-filled buffer happens to decode to the very record that
     was being written (cut behind the body, or only zero bytes were lost). -/
-theorem scan_torn_total_iff (good : List Stamped) (s : Stamped) (c : Nat)
+theorem scanLegacy_torn_total_iff (good : List Stamped) (s : Stamped) (c : Nat)
     (hg : ∀ x ∈ good, WF x.r) (hs : WF s.r) :
-    ((scan (encodeAll good ++ (encodeRecord s.ts s.crc s.r).take c)).stop = .eof ∧
-      ((scan (encodeAll good ++ (encodeRecord s.ts s.crc s.r).take c)).recs = good.map (·.r) ∨
-       (scan (encodeAll good ++ (encodeRecord s.ts s.crc s.r).take c)).recs = good.map (·.r) ++ [s.r]))
+    ((scanLegacy (encodeAll good ++ (encodeRecord s.ts s.crc s.r).take c)).stop = .eof ∧
+      ((scanLegacy (encodeAll good ++ (encodeRecord s.ts s.crc s.r).take c)).recs = good.map (·.r) ∨
+       (scanLegacy (encodeAll good ++ (encodeRecord s.ts s.crc s.r).take c)).recs = good.map (·.r) ++ [s.r]))
     ↔ (c ≤ 18 ∨ decodeBody (tornBody s.r c) = .ok s.r.key s.r.val) := by
   by_cases hc : c ≤ 18
   · simp only [hc, true_or, iff_true]
-    rw [scan_torn_head good s c hg hc]; exact ⟨rfl, Or.inl rfl⟩
+    rw [scanLegacy_torn_head good s c hg hc]; exact ⟨rfl, Or.inl rfl⟩
   · have hc' : 18 < c := by omega
     simp only [hc, false_or]
-    rw [scan_torn_exact good s c hg hs hc']
+    rw [scanLegacy_torn_exact good s c hg hs hc']
     cases hd : decodeBody (tornBody s.r c) with
     | eof =>
       exfalso
@@ -253,7 +261,7 @@ theorem scan_torn_total_iff (good : List Stamped) (s : Stamped) (c : Nat)
 /-! ### refutation of the full statement on the faithful model -/
 
 /-- witness record: flag 4 (account), key 0x01, value AA BB CC; encoded = 18-byte head ++ C5 01 83 AA BB CC ++ zeros -/
-def witness : Stamped := ⟨1600000000, 0xBEEF, ⟨4, [1], [0xAA, 0xBB, 0xCC]⟩⟩
+def witness : Stamped := ⟨1600000000, crc16 (bodyOf ⟨4, [1], [0xAA, 0xBB, 0xCC]⟩), ⟨4, [1], [0xAA, 0xBB, 0xCC]⟩⟩
 
 example : WF witness.r := by decide
 example : (encodeRecord witness.ts witness.crc witness.r).length = 256 := by
@@ -263,22 +271,22 @@ example : (encodeRecord witness.ts witness.crc witness.r).length = 256 := by
     scan ends with EOF — no error — and delivers a record with value `AA 00 00`, which was never
     written. -/
 theorem scan_torn_total_refuted_phantom :
-    scan ((encodeRecord witness.ts witness.crc witness.r).take 22)
+    scanLegacy ((encodeRecord witness.ts witness.crc witness.r).take 22)
       = ⟨.eof, 256, [⟨4, [1], [0xAA, 0, 0]⟩]⟩ := by decide
 
 /-- **refutation (scan error)**: cut the witness at byte 19 (head + the rlp list header): the zero-filled
     body does not decode ("input list has too many elements"), `scanFile` returns the error and
     `FileQueue.Start` panics — the database does not open without manual repair. -/
 theorem scan_torn_total_refuted_error :
-    scan ((encodeRecord witness.ts witness.crc witness.r).take 19) = ⟨.err "TooMany", 0, []⟩ := by decide
+    scanLegacy ((encodeRecord witness.ts witness.crc witness.r).take 19) = ⟨.err "TooMany", 0, []⟩ := by decide
 
 /-- the full statement `scan_torn_total` is refuted: there are a well-formed record and a cut for which
     the scan neither stops with "EOF + the old records" nor with "EOF + the old records + the new one". -/
 theorem scan_torn_total_refuted :
     ¬ (∀ (good : List Stamped) (s : Stamped) (c : Nat), (∀ x ∈ good, WF x.r) → WF s.r →
-        (scan (encodeAll good ++ (encodeRecord s.ts s.crc s.r).take c)).stop = .eof ∧
-        ((scan (encodeAll good ++ (encodeRecord s.ts s.crc s.r).take c)).recs = good.map (·.r) ∨
-         (scan (encodeAll good ++ (encodeRecord s.ts s.crc s.r).take c)).recs = good.map (·.r) ++ [s.r])) := by
+        (scanLegacy (encodeAll good ++ (encodeRecord s.ts s.crc s.r).take c)).stop = .eof ∧
+        ((scanLegacy (encodeAll good ++ (encodeRecord s.ts s.crc s.r).take c)).recs = good.map (·.r) ∨
+         (scanLegacy (encodeAll good ++ (encodeRecord s.ts s.crc s.r).take c)).recs = good.map (·.r) ++ [s.r])) := by
   intro h
   have := h [] witness 22 (by simp) (by decide)
   simp only [encodeAll, List.nil_append] at this
@@ -290,7 +298,7 @@ set_option maxRecDepth 16384 in
 /-- … and a zero-filled tail (file size extended, data blocks not yet written) is no better: a head cut
     after its 5th byte followed by zeros makes the scan fail (`expected input list`). -/
 theorem scan_torn_zero_tail_refuted :
-    scan ((encodeRecord witness.ts witness.crc witness.r).take 5 ++ zeros 251) = ⟨.err "ExpectedList", 0, []⟩ := by
+    scanLegacy ((encodeRecord witness.ts witness.crc witness.r).take 5 ++ zeros 251) = ⟨.err "ExpectedList", 0, []⟩ := by
   decide
 
 /-! ### redelivery -/
@@ -349,38 +357,38 @@ theorem stable_after_crash_partial (d : Disk) (p : Promotion) (cp : CrashPoint)
     subst this
     exact ⟨by simp [recover, crashState, completed, redeliver_prefix], by simp [recover, crashState, completed]⟩
 
-/-! ### byte level and record level together -/
+/-! ### byte level and record level together (reader before the fix) -/
 
-/-- **recoverBytes_torn_partial**: a crash during the append, cut inside a head or behind a body: start-up
+/-- **recoverBytesLegacy_torn_partial**: a crash during the append, cut inside a head or behind a body: start-up
     succeeds and the store is exactly the record-level crash state `appending j` replayed — the
     byte level refines the record level under the guard. -/
-theorem recoverBytes_torn_partial (kv : Store) (good : List Stamped) (s : Stamped) (c : Nat)
+theorem recoverBytesLegacy_torn_partial (kv : Store) (good : List Stamped) (s : Stamped) (c : Nat)
     (hg : ∀ x ∈ good, WF x.r) (hs : WF s.r) (guard : c ≤ 18 ∨ 18 + (bodyOf s.r).length ≤ c) :
-    recoverBytes kv (encodeAll good ++ (encodeRecord s.ts s.crc s.r).take c)
+    recoverBytesLegacy kv (encodeAll good ++ (encodeRecord s.ts s.crc s.r).take c)
       = some (kv.replay (good.map (·.r) ++ (if c ≤ 18 then [] else [s.r]))) := by
-  unfold recoverBytes
+  unfold recoverBytesLegacy recoverWith
   rcases guard with h | h
-  · rw [scan_torn_head good s c hg h]; simp [h]
+  · rw [scanLegacy_torn_head good s c hg h]; simp [h]
   · have hb := bodyOf_ne_nil s.r
     have : ¬ c ≤ 18 := by
       intro h18
       have : (bodyOf s.r).length = 0 := by omega
       exact hb (List.eq_nil_of_length_eq_zero this)
-    rw [scan_torn_pad good s c hg hs h]; simp [this]
+    rw [scanLegacy_torn_pad good s c hg hs h]; simp [this]
 
 /-- **refutation**: the store durably holds key 01 = AA BB CC; a rewrite of the same value is cut at
     byte 22; after start-up the key reads AA 00 00 — the intact copy has been overwritten. -/
 theorem recoverBytes_torn_refuted_overwrite :
-    (recoverBytes (Store.empty.apply witness.r) ((encodeRecord witness.ts witness.crc witness.r).take 22)).map
+    (recoverBytesLegacy (Store.empty.apply witness.r) ((encodeRecord witness.ts witness.crc witness.r).take 22)).map
       (fun st => st (4, [1])) = some (some [0xAA, 0, 0]) := by
-  unfold recoverBytes
+  unfold recoverBytesLegacy recoverWith
   rw [scan_torn_total_refuted_phantom]
   decide
 
 /-- **refutation**: cut at byte 19: start-up does not complete at all. -/
 theorem recoverBytes_torn_refuted_panic :
-    recoverBytes (Store.empty.apply witness.r) ((encodeRecord witness.ts witness.crc witness.r).take 19) = none := by
-  unfold recoverBytes
+    recoverBytesLegacy (Store.empty.apply witness.r) ((encodeRecord witness.ts witness.crc witness.r).take 19) = none := by
+  unfold recoverBytesLegacy recoverWith
   rw [scan_torn_total_refuted_error]
 
 /-- a two-record promotion: block 1 and one account whose balance changes from 10 to 20 -/
